@@ -6,6 +6,8 @@ base = os.path.basename(m)
 if base.startswith("m2_"):          # second wave: C01_a/C01_b of the wave become C01_c/C01_d
     pid_, letter = base[3:].split("_")
     name = pid_ + "_" + {"a": "c", "b": "d"}[letter]
+elif base.startswith("m3_"):        # third wave: one change per property, suffix e
+    name = base[3:] + "_e"
 else:
     name = base.replace("mut_", "")
 pid = name.split("_")[0]
